@@ -55,7 +55,9 @@ class Ctx(object):
         prelude.install(it)
         it.contracts = self.registry.contracts
         it.loop_specs = self.registry.loops
-        it.mode.by_contract = set(by_contract)
+        # add_status is always seen through its (C18-verified) range-update contract: keeps the
+        # status dictionaries compact
+        it.mode.by_contract = set(by_contract) | {'statuses.add_status'}
         if hooks:
             it.hooks.update(hooks)
         it.types = TYPES
